@@ -1,13 +1,13 @@
 SPECIFICATION Spec
 CONSTANTS
-  Inits = {1, 2, 3}
+  Inits = {1, 2}
   MaxSerial = 5
   MaxSteps = 2
   Kinds1 = {"fetcherr", "badsig", "wrongpred", "wrongserial", "stale", "otherbase", "otherisd", "inserterr"}
-  Kinds2 = {"badsig", "fetcherr", "wrongserial"}
+  Kinds2 = {"badsig", "fetcherr"}
   Variants1 = {"ok", "okb"}
-  Variants2 = {"ok", "okb"}
-  LoadSteps = {1, 2}
+  Variants2 = {"ok"}
+  LoadSteps = {1}
 INVARIANTS Emit
 VIEW View
 CHECK_DEADLOCK FALSE
